@@ -163,7 +163,7 @@ func init() {
 	Register(Spec[jCase]{
 		ID: "C07", Suite: "offers", CoqImports: imports,
 		CoqType: "list (list op)", CoqRun: jRunName("C07"),
-		Quick: 260, Thorough: 3000, Parallel: 8,
+		Quick: 170, Thorough: 3000, Parallel: 8,
 		Corpus: c07Corpus,
 		Gen: func(r *Rand, i int) jCase {
 			h := 12
@@ -180,14 +180,14 @@ func init() {
 	Register(Spec[jCase]{
 		ID: "C07", Suite: "hist", CoqImports: imports,
 		CoqType: "list (list op)", CoqRun: jRunName("C07"),
-		Quick: 140, Thorough: 1500, Parallel: 8,
+		Quick: 90, Thorough: 1500, Parallel: 8,
 		Gen: func(r *Rand, i int) jCase { return jGenSynth(r, 12) },
 		Run: c07Run, Coq: jCoqOf, Shrink: jShrink,
 	})
 	Register(Spec[jCase]{
 		ID: "C07", Suite: "pair", CoqImports: imports,
 		CoqType: "list (list op)", CoqRun: jRunName("C07"),
-		Quick: 80, Thorough: 800, Parallel: 8,
+		Quick: 60, Thorough: 800, Parallel: 8,
 		Gen: func(r *Rand, i int) jCase { return jGenPair(r, 10) },
 		Run: c07Run, Coq: jCoqOf, Shrink: jShrink,
 	})
